@@ -9,17 +9,36 @@ ASSUMPTIONS = [
     "share containers are in-memory (disk primitives of ShareFile/MutableShareFile replaced); cancel secrets of the leases of one share are pairwise distinct",
     "lease-age histogram (float bucket arithmetic) is replaced by a recorder",
 ]
-T = {"quick": 120, "thorough": 1200}
+T = {"quick": 120, "thorough": 1500}
 _CASES = [{"policy": p, "enabled": e, "_label": "%s-%s" % (("age", "age_override", "cutoff")[p], "on" if e else "off")}
           for p in (0, 1, 2) for e in (True, False)]
 OBLIGATIONS = [
     chx("process_share", "C26_h", "h_process_share",
         bounds={"quick": {"n_max": 2, "other_type_symbolic": False}, "thorough": {"n_max": 3, "other_type_symbolic": True}},
-        cases=_CASES,
+        cases={"quick": _CASES,
+               "thorough": [dict(c, n_min=0, n_max=2, other_type_symbolic=True, _label=c["_label"] + "-n012") for c in _CASES]
+                           + [dict(c, n_min=3, n_max=3, other_type_symbolic=False, _label=c["_label"] + "-n3") for c in _CASES]},
         timeout=T,
         desc="LeaseCheckingCrawler.__init__ + process_share + LeaseInfo.get_age/get_grant_renew_time_time + real cancel_lease: "
              "cancelled leases == leases expired under the documented policy (age: renewal+duration(31d|override) < now; cutoff: renewal < cutoff) "
              "and only if enabled and the share type is selected; share unlinked iff all leases cancelled; removable/actual/original reports and "
              "space-recovered counters agree",
         outside="shares with zero leases are reported as recovered but never unlinked (cancel_lease is never called for them)"),
+    chx("process_bucket", "C26_h", "h_process_bucket",
+        cases=[{"policy": p, "_label": ("age", "age_override", "cutoff")[p]} for p in (0, 1, 2)],
+        timeout=T,
+        desc="LeaseCheckingCrawler.process_bucket over a bucket with two shares (one lease each), a non-share entry and an optionally corrupt share: "
+             "exactly the numeric entries are examined; each share deleted only if expired+enabled+selected and always if so; corrupt share "
+             "recorded and kept; actual-buckets counts the bucket iff all its shares were deleted; actual-shares == number deleted",
+        outside="bucket directory removal itself (done by the storage server, not the crawler)"),
+    chx("config_policy", "C26_h", "h_config_policy",
+        cases=[{"md": m, "_label": ("nomode", "age", "cutoff", "bogus")[m]} for m in (0, 1, 2, 3)],
+        bounds={"quick": {"explicit_true": False}, "thorough": {"explicit_true": True}},
+        timeout=T,
+        desc="client._Client.get_anonymous_storage_server (expire.* options read through the real _Config/configparser) -> real "
+             "StorageServer.__init__ -> LeaseCheckingCrawler.__init__ -> process_share on a one-lease share: expire.enabled defaults to off and then "
+             "nothing is deleted; mode required when enabled; unknown mode / cutoff mode without date rejected; expire.immutable/mutable filters; "
+             "override only used in age mode; deletion iff documented predicate",
+        outside="parse_duration / parse_date (C48) are replaced by carriers of symbolic integers; docs say override_lease_duration is *rejected* in "
+                "cutoff-date mode and cutoff_date in age mode, the code silently ignores them (not part of the property statement)"),
 ]
